@@ -18,7 +18,7 @@ use crate::{
     ensure,
 };
 
-const RULE: &str = "a case = a label filter (include-all / allow-list over a subset of the field pool / a custom filter deciding on metric name and label) and 1-2 threads sharing one subscriber, each executing 2-25 operations: open a span (a call site with six Option-valued fields of types str, i64, bool, u64, f64, Display, or a field-less call site) nested under the current one (or created with an explicit parent that is another open span, or as an explicit root) up to depth 4, close the innermost span, record() a field on any open span, emit a counter/gauge/histogram whose own labels overlap the field pool. A reference model (per span: creation fields, then the parent's map as of creation for missing names, later records overwrite) predicts the name->value label map the inner recorder receives. Non-trivial = some field name occurs at >= 2 of {metric, inner span, outer span} for an emission. Distinct = distinct decoded cases.";
+const RULE: &str = "a case = a label filter (include-all / allow-list over a subset of the field pool / a custom filter deciding on metric name and label) and 1-2 threads sharing one subscriber, each executing 2-25 operations: open a span (a call site with six Option-valued fields of types str, i64, bool, u64, f64, Display, or a field-less call site) nested under the current one (or created with an explicit parent that is another open span, or as an explicit root) up to depth 4, close the innermost span, record() a field on any open span, emit a counter/gauge/histogram whose own labels overlap the field pool. A reference model (per span: creation fields, then the parent's map as of creation for missing names, later records overwrite) predicts the name->value label map the inner recorder receives. Now and then a span comes from a call site with 18 fields of its own (maps of 14-18 labels, more with inheritance). Non-trivial = some field name occurs at >= 2 of {metric, inner span, outer span} for an emission, or an 18-field span was opened. Distinct = distinct decoded cases.";
 
 static META: Metadata<'static> = Metadata::new("c17", Level::INFO, None);
 
@@ -67,7 +67,7 @@ enum Parent {
 
 #[derive(Debug, Clone)]
 enum Op2 {
-    Open { fields: [Option<Val>; 6], empty_site: bool, parent: Parent },
+    Open { fields: [Option<Val>; 6], empty_site: bool, parent: Parent, wide: Option<(u32, u64)> },
     Close,
     Record { level: usize, field: usize, val: Val },
     Emit { kind: char, name: String, labels: Vec<(String, String)> },
@@ -105,7 +105,9 @@ fn dec_ops(src: &mut Source) -> Vec<Op2> {
                     1 | 2 => Parent::Explicit(src.below(4)),
                     _ => Parent::Contextual,
                 };
-                Op2::Open { fields, empty_site, parent }
+                // now and then a call site with 18 fields of its own (label maps far larger than the usual handful)
+                let wide = if src.chance(28) { Some((src.int_in(0, (1 << 18) - 1) as u32 | 0x3_fff0, *src.pick(&[0u64, 7, u64::MAX - 20]))) } else { None };
+                Op2::Open { fields, empty_site, parent, wide }
             }
             3 => Op2::Close,
             4 => {
@@ -171,6 +173,32 @@ fn open_span(fields: &[Option<Val>; 6], empty_site: bool, parent: Option<Option<
     }
 }
 
+const WIDE: [&str; 18] = ["w00", "w01", "w02", "w03", "w04", "w05", "w06", "w07", "w08", "w09", "w10", "w11", "w12", "w13", "w14", "w15", "w16", "w17"];
+
+fn wide_values(mask: u32, base: u64) -> [Option<u64>; 18] {
+    let mut w = [None; 18];
+    for (i, v) in w.iter_mut().enumerate() {
+        if mask & (1 << i) != 0 {
+            *v = Some(base.wrapping_add(i as u64));
+        }
+    }
+    w
+}
+
+fn open_wide(mask: u32, base: u64, parent: Option<Option<&tracing::Span>>) -> tracing::Span {
+    let w = wide_values(mask, base);
+    macro_rules! wide_span {
+        ($($head:tt)*) => {
+            tracing::span!($($head)* tracing::Level::INFO, "wide", w00 = w[0], w01 = w[1], w02 = w[2], w03 = w[3], w04 = w[4], w05 = w[5], w06 = w[6], w07 = w[7], w08 = w[8], w09 = w[9], w10 = w[10], w11 = w[11], w12 = w[12], w13 = w[13], w14 = w[14], w15 = w[15], w16 = w[16], w17 = w[17])
+        };
+    }
+    match parent {
+        None => wide_span!(),
+        Some(None) => wide_span!(parent: None,),
+        Some(Some(p)) => wide_span!(parent: p,),
+    }
+}
+
 fn record_on(span: &tracing::Span, field: usize, val: &Val) {
     match val {
         Val::Str(s) => {
@@ -209,10 +237,11 @@ fn run_thread(ops: &[Op2], filter: &Filter, rec: &(dyn Recorder + Sync), log: &c
     let mut stack: Vec<(EnteredSpan, MapModel, bool)> = vec![]; // (span, model map, has fields callsite)
     let mut nontrivial = false;
     let mut explicit_parent_differs = false;
+    let mut wide_seen = false;
     let result = (|| -> Result<(), Fail> {
         for op in ops {
             match op {
-                Op2::Open { fields, empty_site, parent } => {
+                Op2::Open { fields, empty_site, parent, wide } => {
                     if stack.len() >= 4 {
                         continue;
                     }
@@ -228,22 +257,33 @@ fn run_thread(ops: &[Op2], filter: &Filter, rec: &(dyn Recorder + Sync), log: &c
                             }
                         }
                     };
+                    let open = |p: Option<Option<&tracing::Span>>| match wide {
+                        Some((mask, base)) => open_wide(*mask, *base, p),
+                        None => open_span(fields, *empty_site, p),
+                    };
                     let span = match parent {
-                        Parent::Contextual => open_span(fields, *empty_site, None),
-                        Parent::Root => open_span(fields, *empty_site, Some(None)),
+                        Parent::Contextual => open(None),
+                        Parent::Root => open(Some(None)),
                         Parent::Explicit(_) => match parent_idx {
                             Some(i) => {
                                 let p: &tracing::Span = &stack[i].0;
-                                open_span(fields, *empty_site, Some(Some(p)))
+                                open(Some(Some(p)))
                             }
-                            None => open_span(fields, *empty_site, Some(None)),
+                            None => open(Some(None)),
                         },
                     };
                     if *parent != Parent::Contextual && parent_idx != stack.len().checked_sub(1) {
                         explicit_parent_differs = true;
                     }
                     let mut map: MapModel = vec![];
-                    if !*empty_site {
+                    if let Some((mask, base)) = wide {
+                        for (i, v) in wide_values(*mask, *base).iter().enumerate() {
+                            if let Some(v) = v {
+                                set(&mut map, WIDE[i], v.to_string());
+                            }
+                        }
+                        wide_seen = true;
+                    } else if !*empty_site {
                         for (i, f) in fields.iter().enumerate() {
                             if let Some(v) = f {
                                 set(&mut map, FIELDS[i], v.expected());
@@ -257,7 +297,7 @@ fn run_thread(ops: &[Op2], filter: &Filter, rec: &(dyn Recorder + Sync), log: &c
                             }
                         }
                     }
-                    stack.push((span.entered(), map, !*empty_site));
+                    stack.push((span.entered(), map, wide.is_none() && !*empty_site));
                 }
                 Op2::Close => {
                     stack.pop();
@@ -324,7 +364,7 @@ fn run_thread(ops: &[Op2], filter: &Filter, rec: &(dyn Recorder + Sync), log: &c
         drop(s);
     }
     let _ = explicit_parent_differs;
-    result.map(|_| nontrivial)
+    result.map(|_| nontrivial || wide_seen)
 }
 
 pub fn case_spans(bytes: &[u8], _s: &[u8], ctx: &mut Ctx) -> Result<(), Fail> {
